@@ -124,6 +124,15 @@ func (p *Program) verifyFunc(fn *ssa.Function, ct *Contract, sweepOnly bool) (re
 	if ct != nil && ct.Opts["fuel"] != "" {
 		fmt.Sscanf(ct.Opts["fuel"], "%d", &ex.fuel)
 	}
+	if ct != nil && ct.Trusted {
+		// the body of a trusted function is not executed; what can be decided on its code alone still is
+		for _, g := range ct.Guards {
+			if g.Kind == "nocall" {
+				p.noCallObligation(vc, fn, key, g)
+			}
+		}
+		return res
+	}
 	fr, st := p.newTopFrame(ex, fn, ct)
 	if ct != nil {
 		for _, r := range ct.Requires {
@@ -166,6 +175,11 @@ func (p *Program) verifyFunc(fn *ssa.Function, ct *Contract, sweepOnly bool) (re
 	if ct != nil {
 		for _, g := range ct.Guards {
 			if g.Kind == "sort" {
+				continue
+			}
+			if g.Kind == "nocall" {
+				// "guard nocall F: false": the function (with its function literals) contains no call of F - decided on the code
+				p.noCallObligation(vc, fn, key, g)
 				continue
 			}
 			if ex.top.oblCount[fmt.Sprintf("guardhit:%p", g)] == 0 {
@@ -611,4 +625,42 @@ func describeObligation(o *Obligation) string {
 		pos = fmt.Sprintf(" (%s:%d)", strings.TrimPrefix(o.Pos.Filename, "/repo/"), o.Pos.Line)
 	}
 	return o.Name + ": " + o.Text + pos
+}
+
+func (p *Program) noCallObligation(vc *VC, fn *ssa.Function, key string, g *Guard) {
+	site := noCallSite(fn, g.Name)
+	goal, txt := "true", "the function never calls "+g.Name
+	if site != "" {
+		goal, txt = "false", "the function must not call "+g.Name+", but does ("+site+")"
+	}
+	vc.oblige(&Obligation{Name: fmt.Sprintf("%s#guard(nocall %s)", key, g.Name), Kind: "static", PC: "true", Goal: goal, Text: txt, Fn: key})
+}
+
+// noCallSite: a description of the first call of a function or method called name inside fn or one of its function
+// literals ("" if there is none).
+func noCallSite(fn *ssa.Function, name string) string {
+	for _, b := range fn.Blocks {
+		for _, in := range b.Instrs {
+			ci, ok := in.(ssa.CallInstruction)
+			if !ok {
+				continue
+			}
+			c := ci.Common()
+			n := ""
+			if c.IsInvoke() {
+				n = c.Method.Name()
+			} else if sc := c.StaticCallee(); sc != nil {
+				n = sc.Name()
+			}
+			if n == name {
+				return fn.Prog.Fset.Position(in.Pos()).String()
+			}
+		}
+	}
+	for _, af := range fn.AnonFuncs {
+		if s := noCallSite(af, name); s != "" {
+			return s
+		}
+	}
+	return ""
 }
